@@ -61,6 +61,7 @@ func NewSecure[Pub any](m map[string]DynSecureSwarm[Pub]) p2p.SecureSwarm[Addr, 
 func NewSecureAsk[Pub any](m map[string]DynSecureAskSwarm[Pub]) p2p.SecureAskSwarm[Addr, Pub] {
 	ms := newMultiSwarm(convertSecureAsk(m))
 	ma := newMultiAsker(map[string]p2p.AskSwarm[p2p.Addr]{})
+	ms.asker = ma
 	msec := multiSecure[Pub]{}
 
 	for name, s := range m {
@@ -86,6 +87,8 @@ type multiSwarm struct {
 	addrSchema AddrSchema
 	swarms     map[string]DynSwarm
 	tells      swarmutil.TellHub[Addr]
+	// asker is set by NewSecureAsk: Close also closes its hub.
+	asker *multiAsker
 }
 
 func newMultiSwarm(m map[string]DynSwarm) *multiSwarm {
@@ -163,6 +166,9 @@ func (mt *multiSwarm) Close() error {
 	// Close the hubs first: the receive and serve loops deliver into them from inside
 	// the inner swarms' callbacks, and closing an inner swarm may wait for those callbacks.
 	mt.tells.CloseWithError(p2p.ErrClosed)
+	if mt.asker != nil {
+		mt.asker.asks.CloseWithError(p2p.ErrClosed)
+	}
 	var err error
 	for _, t := range mt.swarms {
 		if err2 := t.Close(); err2 != nil {
